@@ -549,6 +549,79 @@ def expr_shard(arg):
     return part.result()
 
 
+# ---- one name declared in two scopes: renaming the declaration of ONE scope (with its uses) is a meaning-preserving rewrite ---
+# {X} is the shared name, {s} a scope suffix for the auxiliary names; kinds with a well-formed and several ill-formed spellings
+SAME_NAME_KINDS = {
+    "range-typedef": ("typedef int[0,{a}] {X}; {X} v{s};", {"good": dict(a="3"), "bound-not-computable": dict(a="gn"), "empty-range": dict(a="-1")}),
+    "record-typedef": ("typedef struct {{ int fa; {a} }} {X}; {X} v{s};", {"good": dict(a="int fb;"), "duplicate-field": dict(a="int fa;"),
+                                                                          "void-field": dict(a="void fb;")}),
+    "array-typedef": ("typedef int {X}[{a}]; {X} v{s};", {"good": dict(a="2"), "size-not-computable": dict(a="gn"), "negative-size": dict(a="-2")}),
+    "array-variable": ("int {X}[{a}];", {"good": dict(a="2"), "size-not-computable": dict(a="gn")}),
+    "constant": ("const int {X} = {a}; int w{s}[{X}];", {"good": dict(a="2"), "initialiser-not-computable": dict(a="gn")}),
+    "function": ("int {X}(int q) {{ {a} }} int u{s} = 1;", {"good": dict(a="return q;"), "missing-return": dict(a="q = 1;"),
+                                                            "unknown-name-in-body": dict(a="return nosuch;")}),
+    "scalar-typedef": ("typedef scalar[{a}] {X}; {X} v{s};", {"good": dict(a="2"), "size-not-computable": dict(a="gn")}),
+}
+SAME_NAME_SCOPES = ("global", "template-P", "template-Q", "function-body")
+
+
+def same_name_doc(kind, names, health):
+    """names/health: scope -> name of the declaration in that scope (None: not declared there) / spelling id"""
+    tpl, spell = SAME_NAME_KINDS[kind]
+    text = {}
+    for sc in SAME_NAME_SCOPES:
+        text[sc] = tpl.format(X=names[sc], s=sc[-1].lower() + "x", **spell[health[sc]]) if names.get(sc) else ""
+    g = "int gn; " + text["global"] + (" void holder() { %s }" % text["function-body"] if text["function-body"] else "")
+    mk = lambda n, d, lid: X.template(n, decl=d or None, locations=[X.location(lid, "L" + n)], init=lid)      # noqa: E731
+    return X.nta(g, [mk("P", text["template-P"], "id0"), mk("Q", text["template-Q"], "id1")], "system P, Q;")
+
+
+def same_name_cases():
+    import itertools
+    for kind, (tpl, spell) in SAME_NAME_KINDS.items():
+        for sa, sb in itertools.combinations(SAME_NAME_SCOPES, 2):
+            if kind == "function" and "function-body" in (sa, sb):
+                continue        # no nested functions
+            for ha in spell:
+                for hb in spell:
+                    for renamed in (sa, sb):
+                        yield kind, sa, sb, ha, hb, renamed
+
+
+def run_same_name(arg):
+    i, n = arg
+    part = engine.Part()
+    w = engine.worker("fast")
+    cases = [c for k, c in enumerate(same_name_cases()) if k % n == i]
+    docs = []
+    for kind, sa, sb, ha, hb, renamed in cases:
+        health = {sa: ha, sb: hb}
+        base = same_name_doc(kind, {sa: "xname", sb: "xname"}, health)
+        rw = same_name_doc(kind, {sa: FRESH if renamed == sa else "xname", sb: FRESH if renamed == sb else "xname"}, health)
+        docs += [base, rw]
+    res = X.run_docs(w, docs, want=["noinv"], batch=50)
+    for k, (kind, sa, sb, ha, hb, renamed) in enumerate(cases):
+        rb, rr = res[2 * k], res[2 * k + 1]
+        part.count()
+        key = "%s:%s=%s:%s=%s:renamed-%s" % (kind, sa, ha, sb, hb, renamed)
+        rp = {"op": "xml", "buf": docs[2 * k], "rewritten": docs[2 * k + 1], "case": key}
+        if engine.check_crash(part, PID, rb, "same-name base " + key, rp) or engine.check_crash(part, PID, rr, "same-name rewritten " + key, rp):
+            continue
+        part.nontrivial_case("same-name:" + key)
+        mb = sorted(m.replace(FRESH, "xname") for m in X.msgs(rb))
+        mr = sorted(m.replace(FRESH, "xname") for m in X.msgs(rr))
+        if mb != mr or rb.get("exc") != rr.get("exc"):
+            part.outcome("same-name:verdict-changes")
+            part.violation("same-name:diagnostics:%s:%s:%s" % (kind, ha + "+" + hb, "fewer-in-base" if len(mb) < len(mr) else "more-in-base"),
+                           "%s: renaming the declaration of scope %s changes the diagnostics: %s -> %s" % (key, renamed, mb[:3], mr[:3]), rp)
+        elif rb.get("methods") != rr.get("methods"):
+            part.outcome("same-name:verdict-changes")
+            part.violation("same-name:methods:%s" % kind, "%s: supported methods change under renaming" % key, rp)
+        else:
+            part.outcome("same-name:invariant/" + ("rejected" if mb else "accepted"))
+    return part.result()
+
+
 def main():
     t = engine.tier()
     rep = engine.Report(PID, "exploration",
@@ -558,7 +631,10 @@ def main():
                         "sub-expression), consistent renaming of every user identifier to a fresh name and to each soft keyword, "
                         "keyword-operator aliases in either direction at every occurrence - and diagnostics (messages), supported "
                         "methods, document dump and parsed queries are compared with the base model's; plus redundant parentheses "
-                        "around every node of every depth-2 expression tree of the C02 enumeration. A case is one (model, rewrite site).")
+                        "around every node of every depth-2 expression tree of the C02 enumeration. One name in two scopes: 7 kinds of "
+                        "declaration (typedefs of ranges, records, arrays and scalar sets, array variables, constants, functions) x every "
+                        "pair of scopes (global, two templates, a function body) x every pair of well-formed / ill-formed spellings x the "
+                        "renaming of either declaration alone. A case is one (model, rewrite site).")
     vs = variants(t)
     jobs = []
     for vi, (vname, so, raw) in enumerate(vs):
@@ -573,6 +649,8 @@ def main():
         rep.merge(res)
     ns = engine.ncpu() * 2
     for res in engine.pmap(expr_shard, [(i, ns) for i in range(ns)]):
+        rep.merge(res)
+    for res in engine.pmap(run_same_name, [(i, engine.ncpu()) for i in range(engine.ncpu())]):
         rep.merge(res)
     rep.assumptions = ["a newline inside a query is not a layout rewrite (it separates queries); queries get blank/tab/comment only",
                        "messages are compared as multisets, positions ignored, the renaming mapped back by whole-word replacement",
